@@ -81,8 +81,11 @@ _DGRAM = SRC + "lowlevel/api_async/servers/datagram.py"
 _UDP_RESTART_SHAPES = {
     # as found: restart of the client task from the finally clause, also when the client task was cancelled
     ("f0cabb418c1ff3ce", "79d6ee2c9003a9f0"): False,
-    # meta/fixes/C18_udp_requeue_on_shutdown.diff: no restart when the client task was cancelled
+    # meta/fixes/C18_udp_requeue_on_shutdown.diff (/repo 7007369): no restart when the client task was cancelled
     ("9934ccc4ae934877", "db6e470efadf4121"): True,
+    # rework by the lead (C16 regression of the former): always restart, but the RuntimeError of start_soon() is
+    # swallowed when the client task was cancelled (task_group_may_be_closed) -> serve_forever still exits cleanly
+    ("ad1b645ce35888a1", "b3513aa282a8e340"): True,
 }
 
 
